@@ -1,4 +1,6 @@
-import CssVerif.Model.Encutils
+import CssVerif.Model.EncutilsDoc
+import CssVerif.Model.EncutilsXml
+import CssVerif.Model.EncutilsTry
 open CssVerif.Proto CssVerif.Encutils
 
 /-- optional string on the wire: `N` = None, otherwise dotted hex (`-` = empty) -/
@@ -33,10 +35,59 @@ def decMeta (kind mt cs : String) : Option MetaRaw :=
     | _, _ => none
   else none
 
+/-- attribute list on the wire: `<name> <value|N>` pairs -/
+def takeAttrs : Nat → List String → Option (List (Cps × Option Cps) × List String)
+  | 0, ws => some ([], ws)
+  | n + 1, a :: v :: ws =>
+    match decCps a, decOpt v, takeAttrs n ws with
+    | some a', some v', some (r, rest) => some ((a', v') :: r, rest)
+    | _, _, _ => none
+  | _, _ => none
+
+/-- start tags on the wire: `T <tag> <number of attributes> <attributes>` repeated -/
+def decEvents : Nat → List String → Option (List StartTag)
+  | _, [] => some []
+  | fuel + 1, "T" :: tag :: n :: ws =>
+    match decCps tag, n.toNat? with
+    | some tg, some k =>
+      match takeAttrs k ws with
+      | some (attrs, rest) => (decEvents fuel rest).map (⟨tg, attrs⟩ :: ·)
+      | none => none
+    | _, _ => none
+  | _, _ => none
+
+def toBytes : Cps → Option (List UInt8)
+  | [] => some []
+  | c :: t => if c < 256 then (toBytes t).map (c.toUInt8 :: ·) else none
+
+/-- a document on the wire: kind `N` (None), `S` (str), `B` (bytes: every value below 256) and the values -/
+def decDoc (kind w : String) : Option (Option Doc) :=
+  if kind == "N" then some none
+  else match decCps w with
+    | none => none
+    | some l =>
+      if kind == "S" then some (some (.text l))
+      else if kind == "B" then (toBytes l).map fun b => some (.bytes b)
+      else none
+
+/-- the `Message` stage of this case: asked about `content` it answers `(mt, param)` / raises; asked about anything
+else it raises (so a model that hands over another content string is noticed) -/
+def decMsg (kind content mt cs : String) : Option (Cps → Except Err (Cps × Param)) :=
+  if kind == "none" then some fun _ => .error .extractor
+  else match decCps content with
+    | none => none
+    | some c =>
+      if kind == "raises" then some fun _ => .error .extractor
+      else if kind == "ok" then
+        match decCps mt, decParam cs with
+        | some m, some p => some fun x => if x == c then .ok (m, p) else .error .extractor
+        | _, _ => none
+      else none
+
 def showInfo (i : Info) : String :=
   "OK " ++ encOpt i.encoding ++ " " ++ flag i.mismatch ++ " " ++ encOpt i.httpMediaType ++ " " ++
   encOpt i.httpEncoding ++ " " ++ encOpt i.metaMediaType ++ " " ++ encOpt i.metaEncoding ++ " " ++
-  encOpt i.xmlEncoding
+  encOpt i.xmlEncoding ++ " " ++ encCps i.str
 
 def handle (line : String) : String :=
   match words line with
@@ -70,6 +121,30 @@ def handle (line : String) : String :=
         | .ok i => showInfo i
         | .error e => "ERR " ++ showErr e
       | _, _, _, _, _, _, _ => "bad-op"
+  | ["try", u, d] => match decBool u, (decCps d).bind toBytes with
+      | some u, some b => match tryEncodings u b with
+        | some r => "OK " ++ encOpt r
+        | none => "UNMODELLED"
+      | _, _ => "bad-op"
+  | ["strict", d] => match decCps d with
+      | some l => match parseXmlDecl l with
+        | some (e, rest) => "WF " ++ encOpt e ++ " " ++ toString (l.length - rest.length)
+        | none => "NODECL"
+      | none => "bad-op"
+  | "meta" :: ws => match decEvents ws.length ws with
+      | some evs => encOpt (metaScan evs)
+      | none => "bad-op"
+  | "infod" :: hasResp :: mt :: cs :: bkind :: body :: tkind :: text :: mkind :: mcontent :: mmt :: mcs :: tryenc :: hkind :: ws =>
+      match decBool hasResp, decOpt mt, decOpt cs, decDoc bkind body, decDoc tkind text, decMsg mkind mcontent mmt mcs,
+        decOpt tryenc, decEvents ws.length ws with
+      | some hr, some mt, some cs, some body, some text, some msg, some te, some evs =>
+        if hkind != "ok" && hkind != "raises" then "bad-op" else
+        let L : Lib := ⟨fun _ => if hkind == "ok" then .ok evs else .error .extractor, msg⟩
+        let resp : Option RespD := if hr then some ⟨mt, cs, body⟩ else none
+        match getEncodingInfoD L resp text te with
+        | .ok i => showInfo i
+        | .error e => "ERR " ++ showErr e
+      | _, _, _, _, _, _, _, _ => "bad-op"
   | _ => "bad-op"
 
 def main : IO Unit := serve handle
